@@ -22,6 +22,8 @@ class ProcTable:
         self.log = []
         self.max_alive = 0
         self.overlap = []
+        self.poll_costs = []  # "slow system call" fault: virtual ticks the n-th Popen.poll() takes
+        self.npoll = 0
 
     def alive(self):
         return [p for p in self.procs if p.exit_time is None or p.exit_time > self.sim.now]
@@ -88,6 +90,13 @@ class FakePopen:
     def poll(self):
         s = self.table.sim
         s.yield_point("ppoll")
+        t = self.table
+        if t.poll_costs:
+            cost = t.poll_costs[t.npoll % len(t.poll_costs)]
+            t.npoll += 1
+            if cost:
+                s.fault_fired("slow_poll")
+                s.sleep(cost / TICKS)
         if self.exit_time is not None and self.exit_time <= s.now:
             self.reaped = True
             self.returncode = self.code
@@ -155,6 +164,10 @@ class C18(Scenario):
                 evs.append([rng.choice([0, 0, 1, 102, 103, 300, 1024, 3000]), rng.random() < 0.6])  # [gap ticks, drain afterwards?]
             case.update(behaviours=beh, debounce=iv, kill_after=rng.choice([0, 1, 10]), restart_on_exit=rng.random() < 0.6, events=evs,
                         final_gap=rng.choice([0, 1, 102, 500] + ([iv * TICKS - 1, iv * TICKS, iv * TICKS + 1] * 2 if iv else [])), second_stop=rng.random() < 0.2)
+            frng = random.Random(f"{seed}:faults")
+            if frng.random() < 0.4:
+                # a system call that takes time: the clock moves between two statements of the caller
+                case["poll_costs"] = [frng.choice([0, 0, 1, 5, 60, 130, 250, 300]) for _ in range(frng.randrange(1, 7))]
         else:
             beh = [{"exit_after": rng.choice([0, 50, 150, 400, 1500]), "ignore_sig": False, "die_delay": 0} for _ in range(rng.randrange(1, 4))]
             case.update(behaviours=beh, wait=rng.random() < 0.5, drop=rng.random() < 0.6, events=[rng.choice([0, 0, 10, 102, 150, 500]) for _ in range(rng.randrange(1, 6))])
@@ -196,6 +209,7 @@ class C18(Scenario):
         def install(p, sim):
             prims.install_base(p, modules_threading=[tricks, edb], modules_time=[tricks])
             table = ProcTable(sim, case.get("behaviours") or [])
+            table.poll_costs = case.get("poll_costs") or []
             holder["t"] = table
             p.set(tricks, "subprocess", types.SimpleNamespace(Popen=table.popen))
             p.set(tricks, "os", Proxy(_os, killpg=table.killpg, getpgid=table.getpgid, setsid=lambda: None))
